@@ -13,43 +13,44 @@ import (
 )
 
 type Coverage struct {
-	Evaluations        int            `json:"evaluations"`
-	DistinctNontrivial int            `json:"distinct_nontrivial"`
-	Rule               string         `json:"rule"`
-	Samples            []string       `json:"samples"`
-	Exhaustive         bool           `json:"exhaustive"`
-	Heights            int            `json:"heights"`
-	Rounds             int            `json:"rounds"`
-	SimSeconds         float64        `json:"simulated_seconds"`
-	RunsPerHour        float64        `json:"runs_per_hour"`
-	SeedsPerHour       float64        `json:"seeds_per_hour"`
-	FaultFreeRuns      int            `json:"fault_free_runs"`
-	OracleEvaluations  int            `json:"oracle_evaluations"`
-	FaultsFired        map[string]int `json:"faults_fired"`
-	Probes             map[string]int `json:"probes_hit"`
-	ProbesAtZero       []string       `json:"probes_at_zero,omitempty"`
-	StepKinds          map[string]int `json:"step_kinds"`
-	DistinctStates     int            `json:"distinct_abstract_states"`
-	DistinctInterleave int            `json:"distinct_interleavings"`
-	Profiles           map[string]int `json:"runs_per_profile"`
+	Evaluations        int               `json:"evaluations"`
+	DistinctNontrivial int               `json:"distinct_nontrivial"`
+	Rule               string            `json:"rule"`
+	Samples            []string          `json:"samples"`
+	Exhaustive         bool              `json:"exhaustive"`
+	Heights            int               `json:"heights"`
+	Rounds             int               `json:"rounds"`
+	SimSeconds         float64           `json:"simulated_seconds"`
+	RunsPerHour        float64           `json:"runs_per_hour"`
+	SeedsPerHour       float64           `json:"seeds_per_hour"`
+	FaultFreeRuns      int               `json:"fault_free_runs"`
+	OracleEvaluations  int               `json:"oracle_evaluations"`
+	FaultsFired        map[string]int    `json:"faults_fired"`
+	Probes             map[string]int    `json:"probes_hit"`
+	ProbesAtZero       []string          `json:"probes_at_zero,omitempty"`
+	StepKinds          map[string]int    `json:"step_kinds"`
+	DistinctStates     int               `json:"distinct_abstract_states"`
+	DistinctInterleave int               `json:"distinct_interleavings"`
+	Profiles           map[string]int    `json:"runs_per_profile"`
 	RealVsStub         map[string]string `json:"real_vs_stub"`
-	Enumerated         map[string]int `json:"enumerated,omitempty"`
-	Race               map[string]int `json:"race_detector,omitempty"`
-	TxOK               int            `json:"relayer_txs_accepted"`
-	TxFail             int            `json:"relayer_txs_rejected"`
+	Enumerated         map[string]int    `json:"enumerated,omitempty"`
+	Race               map[string]int    `json:"race_detector,omitempty"`
+	TxOK               int               `json:"relayer_txs_accepted"`
+	TxFail             int               `json:"relayer_txs_rejected"`
 }
 
 type Evidence struct {
-	PropertyID  string         `json:"property_id"`
-	Tier        string         `json:"tier"`
-	Seed        int64          `json:"seed"`
-	Level       string         `json:"level"`
-	Coverage    Coverage       `json:"coverage"`
-	Assumptions []string       `json:"assumptions"`
-	WallS       float64        `json:"wall_s"`
-	Violations  int            `json:"violations"`
-	Other       map[string]int `json:"other_property_observations,omitempty"`
-	Technique   string         `json:"technique"`
+	PropertyID  string              `json:"property_id"`
+	Tier        string              `json:"tier"`
+	Seed        int64               `json:"seed"`
+	Level       string              `json:"level"`
+	Coverage    Coverage            `json:"coverage"`
+	Assumptions []string            `json:"assumptions"`
+	WallS       float64             `json:"wall_s"`
+	Violations  int                 `json:"violations"`
+	Other       map[string]int      `json:"other_property_observations,omitempty"`
+	OtherSeeds  map[string][]string `json:"other_property_observation_runs,omitempty"`
+	Technique   string              `json:"technique"`
 }
 
 var expectedProbes = map[string][]string{
@@ -148,14 +149,14 @@ func aggregate(prop, tier string, seed uint64, results []*RunResult, wall time.D
 	c.RealVsStub = map[string]string{
 		"app, x/relayer, x/bitcoin, x/locking, x/goat, pkg/crypto, pkg/ethrpc": "real (working tree after source rewrites T1-T5)",
 		"cosmos-sdk baseapp/store/IAVL/auth, tx signing, SenderNonceMempool":   "real",
-		"go-ethereum rpc codec, engine types, goattypes codecs, DeriveSha":      "real",
-		"cometbft ValidatorSet / PB2TM":                                         "real",
-		"CometBFT consensus engine, p2p, mempool reactor":                       "stub (cmtstub)",
-		"goat-geth execution, contracts":                                        "stub (elfake model)",
-		"Bitcoin network":                                                       "stub (btcsim) on real btcd wire/txscript/btcutil",
-		"relayer service":                                                       "stub (actors) with real BLS / secp256k1 signing",
-		"disk":                                                                  "stub (faultdb over MemDB)",
-		"clock, timers, entropy, goroutine scheduling, map order in GOAT code":  "simulated (simrt)",
+		"go-ethereum rpc codec, engine types, goattypes codecs, DeriveSha":     "real",
+		"cometbft ValidatorSet / PB2TM":                                        "real",
+		"CometBFT consensus engine, p2p, mempool reactor":                      "stub (cmtstub)",
+		"goat-geth execution, contracts":                                       "stub (elfake model)",
+		"Bitcoin network":                                                      "stub (btcsim) on real btcd wire/txscript/btcutil",
+		"relayer service":                                                      "stub (actors) with real BLS / secp256k1 signing",
+		"disk":                                                                 "stub (faultdb over MemDB)",
+		"clock, timers, entropy, goroutine scheduling, map order in GOAT code": "simulated (simrt)",
 	}
 	ev.Assumptions = append(ev.Assumptions, propertyAssumptions["*"]...)
 	ev.Assumptions = append(ev.Assumptions, propertyAssumptions[prop]...)
